@@ -35,9 +35,9 @@ from harness.feas_util import Bench, TRX, base_mode, penalties_json
 
 BAND_DB = 0.0051
 CLAUSES_B1 = ['TypeOK', 'AutoSelection', 'FixedModeVerdict', 'InfPenaltyAlwaysBlocks', 'CompositionHolds',
-              'LineIsPristine', 'ReverseOnOwnRoute', 'DirectionAsRequested', 'RuleWellDefined', 'SelectionUniqueUpToTies', 'BlockedIffNoFeasible']
+              'LineIsPristine', 'ReverseOnOwnRoute', 'DirectionAsRequested', 'ThresholdOfDefaultSI', 'RuleWellDefined', 'SelectionUniqueUpToTies', 'BlockedIffNoFeasible']
 WITNESSES = ['WitnessManyUpdates', 'WitnessReverseBlocks', 'WitnessUnjudgedPick']
-TAGS = ['ProfileZero', 'OtherRoute', 'SameRoute', 'MixedSpectrum', 'MixedFlags']      # MC_Feasibility.WitnessTags
+TAGS = ['ProfileZero', 'OtherRoute', 'SameRoute', 'MixedSpectrum', 'MixedFlags', 'NamedSI']      # MC_Feasibility.WitnessTags
 
 TIER = {
     # b2: (# two-mode libraries sampled, # three-mode libraries sampled, paths); b3: scenarios per pair, pairs
@@ -93,14 +93,17 @@ CD_WIDE = [(2000, 0.1), (8000, 0.6), (30000, 1.5), (70000, 4.0)]
 CD_NEGLOW = [(-20000, 0.5), (0, 0.0), (30000, 1.5), (70000, 4.0)]      # explicit negative lower boundary
 
 
-def b2_mode_json(f, k, worst, margin, tabs, listing='asc'):
+B2_BAUDS = (((32e9, 64e9), (37.5e9, 75e9)), ((63.1e9, 66e9), (75e9, 75e9)))    # (baud rates, min_spacing that fits)
+
+
+def b2_mode_json(f, k, worst, margin, tabs, listing='asc', bauds=B2_BAUDS[0]):
     """model mode [b, r, f, d] -> equipment JSON; worst: measured pristine worst channel of the physical mode;
     tabs = (CD table holding the path's CD, CD table the path's CD lies outside of)"""
-    baud = (32e9, 64e9)[f['b']]
+    baud = bauds[0][f['b']]
     inf_pen = f['d'] == 9
     d = 3 if inf_pen else f['d']                  # without its penalty the mode would be 3 dB above the threshold
     pens = penalties_json(cd=tabs[1] if inf_pen else tabs[0], listing=listing)
-    min_spacing = (37.5e9, 75e9)[f['b']] if f['f'] else 100e9
+    min_spacing = bauds[1][f['b']] if f['f'] else 100e9
     return base_mode(f'm{k}', baud, 100e9 * (f['r'] + 1), min_spacing, osnr=worst - d - margin, tx_osnr=40.0,
                      penalties=pens)
 
@@ -137,12 +140,13 @@ def run_b2(chk, emitted, benches):
         else:
             raise Machinery('B2: path CD too close to zero to place tables')
         worst = {}
-        for b in (0, 1):
-            for inf_pen in (False, True):
-                mj = b2_mode_json(dict(b=b, r=0, f=1, d=9 if inf_pen else 0), 0, 0.0, 0.0, tabs)
-                ev = bench.pristine(src, dst, 0, spacing, mj)
-                # an infinite penalty: place the threshold with respect to the GSNR alone
-                worst[(b, inf_pen)] = float(np.min(ev['rx'])) if inf_pen else fu.worst_db(ev)
+        for bs, bauds in enumerate(B2_BAUDS):
+            for b in (0, 1):
+                for inf_pen in (False, True):
+                    mj = b2_mode_json(dict(b=b, r=0, f=1, d=9 if inf_pen else 0), 0, 0.0, 0.0, tabs, bauds=bauds)
+                    ev = bench.pristine(src, dst, 0, spacing, mj)
+                    # an infinite penalty: place the threshold with respect to the GSNR alone
+                    worst[(bs, b, inf_pen)] = float(np.min(ev['rx'])) if inf_pen else fu.worst_db(ev)
         for ci, e in enumerate(cases):
             if cfg['b2_paths'] == 1 and ci % 3 != spot_i:        # quick: the sampled libraries are dealt over the spots
                 continue
@@ -151,10 +155,13 @@ def run_b2(chk, emitted, benches):
                 if order:
                     idx.reverse()
                 # every other library lists its penalty points from the largest boundary down
-                modes = [b2_mode_json(e['lib'][i], i + 1, worst[(e['lib'][i]['b'], e['lib'][i]['d'] == 9)], margin,
-                                      tabs, listing=('asc', 'desc')[(ci // 3) % 2]) for i in idx]
+                # ... and every other one uses two baud rates less than 5 GBd apart; one in four lists two explicitly
+                # named SI entries (the first listed is the default, the other has 4 dB more margin)
+                bs = (ci // 6) % 2
+                modes = [b2_mode_json(e['lib'][i], i + 1, worst[(bs, e['lib'][i]['b'], e['lib'][i]['d'] == 9)], margin,
+                                      tabs, listing=('asc', 'desc')[(ci // 3) % 2], bauds=B2_BAUDS[bs]) for i in idx]
                 pos = {i + 1: k + 1 for k, i in enumerate(idx)}   # model index -> position in the file
-                eq = bench.equipment(modes, None)
+                eq = bench.equipment(modes, None, 'named' if (ci // 12) % 4 == 1 else 'file')
                 kinds = [None]
                 fitting = [i + 1 for i, f in enumerate(e['lib']) if f['f']]
                 if fitting and ci % 3 == 0:
@@ -178,7 +185,7 @@ def run_b2(chk, emitted, benches):
                     if ok:
                         chk.traces += 1
                     else:
-                        lib_txt = ' '.join(f"{(32, 64)[f['b']]}G/{100 * (f['r'] + 1)}G/{'fit' if f['f'] else 'nofit'}/"
+                        lib_txt = ' '.join(f"{B2_BAUDS[bs][0][f['b']] / 1e9:g}G/{100 * (f['r'] + 1)}G/{'fit' if f['f'] else 'nofit'}/"
                                            f"{'penInf' if f['d'] == 9 else '%+d' % f['d']}" for f in e['lib'])
                         kind = 'auto' if fixed is None else 'fixed'
                         chk.violation(f'B2|{kind}|outcome-not-acceptable|code={got if fixed else got["block"]}',
@@ -239,6 +246,7 @@ def measured_tables(meas):
     # lower end inside the reverse spread; below every forward channel when the directions are asymmetric enough
     end_lo = int((flo + rlo) / 2) if rlo < flo - 10 else int(rlo + 0.4 * (rhi - rlo))
     t['partial_lo'] = [(end_lo, 0.3), (end_lo + 2500, 0.0), (end_lo + 30000, 1.0)]
+    t['partial_fwd'] = [(int(flo + 0.6 * (fhi - flo)) - 3000, 0.1), (int(flo + 0.6 * (fhi - flo)), 0.5)]   # forward spread
     t['low_in'] = [(lo - 5000, 0.4), (lo + 40000, 1.0)]    # lower boundary below the path: finite penalty
     t['low_out'] = [(hi + 500, 0.2), (hi + 30000, 1.0)]    # lower boundary above the path (unless the loader adds 0)
     return t
@@ -262,6 +270,12 @@ def physical_library(kind, spacing, meas, rng, listing='asc'):
                 base_mode('48G-300', 48e9, 300e9, 62.5e9, tx_osnr=39.0, offset=1.0, penalties=wide('flat')),
                 base_mode('48G-250', 48e9, 250e9, 62.5e9, tx_osnr=41.0, offset=1.0),
                 base_mode('32G-100', 32e9, 100e9, 37.5e9, tx_osnr=44.0, penalties=wide('neg'))]
+    if kind == 'closebr':         # two baud rates less than 5 GBd apart, the lower one carrying the higher bit rate
+        return [base_mode('63G-400', 63.1e9, 400e9, hi, tx_osnr=37.0, penalties=wide()),
+                base_mode('66G-300', 66e9, 300e9, hi, tx_osnr=39.0, penalties=wide('flat')),
+                base_mode('63G-250', 63.1e9, 250e9, hi, tx_osnr=41.0),
+                base_mode('28G-100', 27.95e9, 100e9, 37.5e9, tx_osnr=43.0, penalties=wide('neg')),
+                base_mode('32G-100', 31.57e9, 100e9, 37.5e9, tx_osnr=44.0)]
     lib = [base_mode('64G-400', 64e9, 400e9, hi, tx_osnr=36.0, offset=off[0], penalties=wide()),
            base_mode('64G-300', 64e9, 300e9, hi, tx_osnr=38.5, offset=off[0], penalties=wide('neg')),
            base_mode('32G-200', 32e9, 200e9, 50e9, tx_osnr=41.0, offset=off[1], penalties=wide('flat')),
@@ -274,7 +288,7 @@ def physical_library(kind, spacing, meas, rng, listing='asc'):
             lib[k]['penalties'] = only('steep')
     if kind == 'cdpartial':       # only SOME channels of the reverse direction leave the table
         lib[0]['penalties'] = only('partial_hi')
-        lib[1]['penalties'] = only('partial_lo')
+        lib[1]['penalties'] = only('partial_fwd')      # ... and of the forward direction for the second mode
         lib[2]['penalties'] = only('partial_hi')
         lib[3]['penalties'] = only('partial_lo')
     if kind == 'cdlow':           # the lower end of the table: loader-inserted 0, explicit boundary below / above the path
@@ -333,19 +347,20 @@ def place_thresholds(bench, src, dst, spacing, lib, deltas, margin, reference, v
     return out
 
 
-def scenario_traces(bench, name, src, dst, spacing, modes_json, fixed, flags, margin, vias=((),), spectrum=None):
+def scenario_traces(bench, name, src, dst, spacing, modes_json, fixed, flags, margin, vias=((),), spectrum=None,
+                    si_layout='file'):
     """run the real code on one constructed scenario - the services of ONE service file, identical but for their route
     (vias) and their bidirectional flag (flags), through requests_aggregation and ONE call of
     compute_path_with_disjunction - and assemble one integer trace per SERVICE for Trace_Feasibility: every service
     is judged for what it asked (its own flag) against the pristine figures of its own route"""
     from gnpy.topology.request import find_reversed_path
-    eq = bench.equipment(modes_json, margin)
+    eq = bench.equipment(modes_json, margin, si_layout)
+    si_written = fu.si_int(bench.si_entries(margin, si_layout))  # as written, not as loaded
     loaded = eq['Transceiver'][TRX].mode
     pen_ids = {id(m['penalties']): k + 1 for k, m in enumerate(loaded)}
     rqs, serving, evals, exc, res = fu.run_batch(bench, eq, src, dst,
                                                  None if not fixed else modes_json[fixed - 1]['format'], flags, spacing,
                                                  vias, spectrum)
-    sys_margin = eq['SI']['default'].sys_margins
     txc = fu.spectrum_carriers_tx(spectrum) if spectrum else []
     out = []
     for si, (via, bidir) in enumerate(zip(vias, flags)):
@@ -357,9 +372,9 @@ def scenario_traces(bench, name, src, dst, spacing, modes_json, fixed, flags, ma
         events = []
         raw = dict(pristine={}, loop=[])
         for k, (mj, m) in enumerate(zip(modes_json, loaded), start=1):
-            fits = float(m['min_spacing']) <= spacing
-            tm = dict(br=int(round(m['baud_rate'] / 1e6)), rate=int(round(m['bit_rate'] / 1e6)), fits=int(fits),
-                      thr=udb(m['OSNR'] + sys_margin), tx=fu.inv9(m['tx_osnr']), pf=fu.NOT_RUN, pr=fu.NOT_RUN)
+            fits = float(mj['min_spacing']) <= spacing
+            tm = dict(br=int(round(mj['baud_rate'] / 1e6)), rate=int(round(mj['bit_rate'] / 1e6)), fits=int(fits),
+                      osnr=udb(mj['OSNR']), tx=fu.inv9(mj['tx_osnr']), pf=fu.NOT_RUN, pr=fu.NOT_RUN)
             for imp, short in fu.SHORT.items():
                 tm[short] = fu.points_int(mj.get('penalties'), imp)      # as written in the file, not as loaded
             if fits and (not spectrum or k == fixed):
@@ -391,7 +406,7 @@ def scenario_traces(bench, name, src, dst, spacing, modes_json, fixed, flags, ma
         if res is not None and bidir and sel and res[2][ri]:
             events.append(fu.project_reported(res[2][ri][-1], sel))
         tr = dict(name=f'{name}.{si}' if len(vias) > 1 else name, auto=int(not fixed), bidir=int(bool(bidir)),
-                  fixed=fixed or 0, stf=bench.stages(path), str=bench.stages(find_reversed_path(path)), txc=txc,
+                  fixed=fixed or 0, stf=bench.stages(path), str=bench.stages(find_reversed_path(path)), txc=txc, si=si_written,
                   modes=tmodes, ev=events, out=dict(sel=sel, block=block))
         out.append((tr, raw, exc))
     return out
@@ -451,7 +466,7 @@ def build_b3(chk, benches):
     traces, meta = [], {}
     acc = dict(composition=0, penalty=0, max_nup=0)
     kinds = ['plain', 'offset', 'cdshort', 'ties', 'groups3', 'nofit', 'shuffled', 'offset2', 'cdsteep', 'cdpartial',
-             'cdlow', 'listing']
+             'cdlow', 'listing', 'closebr']
     # plans taken first on every pair: the table-end / per-channel kinds in each request shape (None: drawn at random)
     # last field: the batch - None (one request) or two requests with the same ends and mode: 'alt-first' (constrained
     # route then shortest), 'alt-second', 'same' (twice the shortest); only where the network offers another route
@@ -461,6 +476,7 @@ def build_b3(chk, benches):
     plans = [(k, None, None, None, None) for k in kinds]
     plans += [('plain', True, True, 'fwdpass', 'flags-TF'), ('plain', True, True, 'fwdpass', 'flags-FT'),
               ('plain', True, False, 'fwd', 'spec-good-first'), ('cdsteep', True, True, 'fwd', 'spec-bad-first')]
+    plans += [('cdpartial', 2, False, 'fwd', None)]      # fixed mode 2: SOME forward channels leave the table
     plans += [('plain', True, True, 'routes', 'alt-first'), ('plain', False, True, 'routes', 'alt-second'),
               ('offset', True, True, 'fwdpass', 'alt-second'), ('plain', True, True, 'fwd', 'same')]
     plans += [(k, fx, True, ref, None) for k in ('cdpartial', 'cdsteep', 'cdlow') for fx, ref in ((False, 'fwdpass'), (True, 'fwdpass'))]
@@ -472,7 +488,7 @@ def build_b3(chk, benches):
                     r=(float(np.min(probe[1])), float(np.max(probe[1]))))
         alts = bench.alternative_routes(src, dst) if bench.name.startswith(('mesh', 'prof')) else []
         pair_plans = [pl for pl in plans if alts or pl[4] not in ('alt-first', 'alt-second')]   # needs another route
-        for si in range(cfg['b3_per_pair'] - (0 if alts else 1)):
+        for si in range(cfg['b3_per_pair']):
             kind, p_fixed, p_bidir, p_ref, p_batch = pair_plans[si] if si < len(pair_plans) else \
                 (rng.choice(kinds), None, None, None, None)
             spacing = 75e9 if kind != 'nofit' else rng.choice([75e9, 50e9, 25e9])
@@ -481,6 +497,10 @@ def build_b3(chk, benches):
                 rng.choice(['asc', 'desc', 'shuffled', 'mixed'])
             lib = physical_library(kind, spacing, meas, rng, listing)
             n = len(lib)
+            # how the SI entries are written: as shipped, two explicitly named entries (the first is the default), or
+            # the entry named "default" listed second; the other entry has another margin
+            si_layout = ('file', 'named', 'default-second')[si % 3] if si < len(kinds) else \
+                rng.choice(['file', 'file', 'named', 'default-second'])
             pattern = si % 7
             if pattern == 0:
                 deltas = [-1.0] * n                                   # nothing feasible
@@ -498,7 +518,7 @@ def build_b3(chk, benches):
             bidir = rng.random() < 0.45
             reference = rng.choice(['fwd', 'rev', 'between', 'fwdpass']) if bidir else 'fwd'
             if p_bidir is not None:
-                fixed = (fitting[0] if p_fixed and fitting else 0)         # the largest mode carries the special table
+                fixed = (p_fixed if p_fixed in fitting and p_fixed is not True else fitting[0]) if p_fixed and fitting else 0
                 bidir, reference = p_bidir, p_ref
                 if pattern in (0, 2):
                     deltas = [rng.choice(DELTAS) for _ in range(n)]
@@ -520,13 +540,13 @@ def build_b3(chk, benches):
             modes = place_thresholds(bench, src, dst, spacing, lib, deltas, sys_margin, reference, vias, spectrum, only)
             name = f't{pi}-{si}'
             for tr, raw, exc in scenario_traces(bench, name, src, dst, spacing, modes, fixed, flags, margin, vias,
-                                                spectrum):
+                                                spectrum, si_layout):
                 hist_dev = deviations(tr, raw, acc)
                 traces.append(tr)
                 meta[tr['name']] = dict(
                     history_deviation_db=round(hist_dev, 6), bench=bname, src=src, dst=dst, kind=kind,
                     spacing=spacing, fixed=fixed, bidir=bool(tr['bidir']), reference=reference, measured_cd=meas,
-                    table_listing=listing, batch_routes=[list(v) for v in vias], batch_flags=list(flags),
+                    table_listing=listing, si_layout=si_layout, batch_routes=[list(v) for v in vias], batch_flags=list(flags),
                     spectrum_tx_osnr=[q['tx_osnr'] for q in spectrum] if spectrum else None,
                     stages_forward=[dict(kind=st['kind'], sel=st['sel'], profile_ids=[q['id'] for q in st['profiles']])
                                     for st in tr['stf']],
@@ -667,7 +687,7 @@ def run(chk):
     t = next((t for t in traces if t['auto'] and sum(e['kind'] for e in t['ev']) >= 3), traces[0])
     chk.sample(dict(kind='B3 scenario judged by Trace_Feasibility', scenario=meta[t['name']],
                     adddrop_stages_forward=t['stf'],
-                    modes=[{k: m[k] for k in ('br', 'rate', 'fits', 'thr', 'tx')} for m in t['modes']],
+                    modes=[{k: m[k] for k in ('br', 'rate', 'fits', 'osnr', 'tx')} for m in t['modes']],
                     loop=[dict(mode=e['mode'], dir=e['dir'], nup=e['nup'], worst_rxdb=min(e['rxdb']))
                           for e in t['ev'] if e['kind'] == 1]))
     chk.assume('the equalisation offset is a function of the baud rate within one transceiver (otherwise the code '
